@@ -1,6 +1,7 @@
 (* Props/C13_concat.v — C13 for the commands `pna concat` and `pna split` + `pna concat` (Model/Concat.v:
    concat_run / concat_cmd = concat.rs over run_across_archive and Archive::raw_entries/add_entry; split_cmd =
-   split.rs over write_split_archive; both tied to the real binary by props/_concat.py, which compares the BYTES of
+   split.rs (as repaired by f4d9f833: the input is read as a part chain, like an argument of concat) over
+   write_split_archive; both tied to the real binary by props/_concat.py, which compares the BYTES of
    the output files with the model's).
    Proved for ALL inputs (byte strings handed in as the files of the arguments), no closed instances:
    * concat_spec / concat_entries: the command succeeds exactly when every argument's part chain reads to a
@@ -10,9 +11,12 @@
    * on arguments the strict recogniser accepts: the output carries EVERY chunk standing between the header and
      the ANXT/AEND markers of every part, in order; a single accepted file is reproduced byte for byte; so is
      whatever the chunk-level model writer wrote (any chunk types), as one file or cut into a part chain;
-   * concat_split_inverse: split (any size the splitter accepts) then concat of an accepted archive gives an
+   * concat_split_inverse(_chain): split (any size the splitter accepts) then concat of an accepted archive — a single
+     file or, since f4d9f833, the part chain of a multipart archive entered at its first part — gives an
      accepted archive whose chunk sequence is the original's with FDAT/SDAT payloads cut in pieces and nothing else
-     changed (crefines), decoding to the same entries (entry_same);
+     changed (crefines), decoding to the same entries (entry_same); resplit_inverse: splitting the parts `pna split`
+     wrote once more loses nothing; the command as it was (one file) on part 1 of a two-part chain whose entry
+     straddles the boundary succeeds and writes an archive without that entry (C13_split_part1_unrepaired_refuted);
    * concat_flatten / concat_assoc: an argument that is the result of a concat can be replaced by the arguments it
      was made from, with the same output file and status;
    * size: 8 + 20 + the byte counts add_entry returned + 12; for single-file arguments 40 + sum (len - 40);
@@ -110,9 +114,48 @@ Check C13_concat_chain_exact :
   concat_cmd [chain n0 (pre ++ [b])] = Ok (write_raw_archive 0 es).
 Print Assumptions C13_concat_chain_exact.
 
+(* `pna split` on an accepted part chain (f4d9f833): the chain is read to its end the way concat reads an argument, the raw
+   entries — an entry straddling a part boundary reassembled — are what the splitter gets *)
+Theorem C13_split_reads_chain :
+  forall (chain : list bytes) (max : N) (xs : list read_entry),
+  strict_parts chain = SOk xs ->
+  exists groups : list (list chunk),
+    bodies 0 chain = SOk (concat groups) /\ Forall2 group_of groups xs /\ Forall body_chunk (concat groups) /\
+    reads chain groups /\
+    split_cmd max chain = (do sp <- Split.write_split max (map (map of_c) groups); Ok (map ser_pfile sp)).
+Proof. exact split_cmd_strict. Qed.
+Check C13_split_reads_chain :
+  forall (chain : list bytes) (max : N) (xs : list read_entry),
+  strict_parts chain = SOk xs ->
+  exists groups : list (list chunk),
+    bodies 0 chain = SOk (concat groups) /\ Forall2 group_of groups xs /\ Forall body_chunk (concat groups) /\
+    reads chain groups /\
+    split_cmd max chain = (do sp <- Split.write_split max (map (map of_c) groups); Ok (map ser_pfile sp)).
+Print Assumptions C13_split_reads_chain.
+
+(* split then concat is the identity up to the cutting of data chunks, for every accepted input CHAIN *)
+Theorem C13_concat_split_inverse_chain :
+  forall (chain : list bytes) (max : N) (parts : list bytes) (xs : list read_entry),
+  strict_parts chain = SOk xs -> split_cmd max chain = Ok parts ->
+  exists (cs cs' : list chunk) (b : bytes) (xs' : list read_entry),
+    bodies 0 chain = SOk cs /\
+    bodies 0 parts = SOk cs' /\ crefines cs cs' /\
+    concat_cmd [parts] = Ok b /\ b = write_header 0 ++ ser_chunks cs' ++ finalize /\
+    strict_parts parts = SOk xs' /\ strict_parts [b] = SOk xs' /\ Forall2 entry_same xs xs'.
+Proof. exact concat_split_inverse_chain. Qed.
+Check C13_concat_split_inverse_chain :
+  forall (chain : list bytes) (max : N) (parts : list bytes) (xs : list read_entry),
+  strict_parts chain = SOk xs -> split_cmd max chain = Ok parts ->
+  exists (cs cs' : list chunk) (b : bytes) (xs' : list read_entry),
+    bodies 0 chain = SOk cs /\
+    bodies 0 parts = SOk cs' /\ crefines cs cs' /\
+    concat_cmd [parts] = Ok b /\ b = write_header 0 ++ ser_chunks cs' ++ finalize /\
+    strict_parts parts = SOk xs' /\ strict_parts [b] = SOk xs' /\ Forall2 entry_same xs xs'.
+Print Assumptions C13_concat_split_inverse_chain.
+
 Theorem C13_concat_split_inverse :
   forall (a : bytes) (max : N) (parts : list bytes) (xs : list read_entry),
-  strict_parts [a] = SOk xs -> split_cmd max a = Ok parts ->
+  strict_parts [a] = SOk xs -> split_cmd max [a] = Ok parts ->
   exists (cs cs' : list chunk) (b : bytes) (xs' : list read_entry),
     a = write_header 0 ++ ser_chunks cs ++ finalize /\
     bodies 0 parts = SOk cs' /\ crefines cs cs' /\
@@ -121,7 +164,7 @@ Theorem C13_concat_split_inverse :
 Proof. exact concat_split_inverse. Qed.
 Check C13_concat_split_inverse :
   forall (a : bytes) (max : N) (parts : list bytes) (xs : list read_entry),
-  strict_parts [a] = SOk xs -> split_cmd max a = Ok parts ->
+  strict_parts [a] = SOk xs -> split_cmd max [a] = Ok parts ->
   exists (cs cs' : list chunk) (b : bytes) (xs' : list read_entry),
     a = write_header 0 ++ ser_chunks cs ++ finalize /\
     bodies 0 parts = SOk cs' /\ crefines cs cs' /\
@@ -129,18 +172,89 @@ Check C13_concat_split_inverse :
     strict_parts parts = SOk xs' /\ strict_parts [b] = SOk xs' /\ Forall2 entry_same xs xs'.
 Print Assumptions C13_concat_split_inverse.
 
+(* re-splitting loses nothing (C04/C13): the parts `pna split --max-size max1` wrote, split again with max2 *)
+Theorem C13_resplit_inverse :
+  forall (chain : list bytes) (max1 max2 : N) (parts1 parts2 : list bytes) (xs : list read_entry),
+  strict_parts chain = SOk xs -> split_cmd max1 chain = Ok parts1 -> split_cmd max2 parts1 = Ok parts2 ->
+  exists (cs cs2 : list chunk) (b : bytes) (xs2 : list read_entry),
+    bodies 0 chain = SOk cs /\
+    bodies 0 parts2 = SOk cs2 /\ crefines cs cs2 /\
+    concat_cmd [parts2] = Ok b /\ b = write_header 0 ++ ser_chunks cs2 ++ finalize /\
+    strict_parts parts2 = SOk xs2 /\ strict_parts [b] = SOk xs2 /\ Forall2 entry_same xs xs2.
+Proof. exact resplit_inverse. Qed.
+Check C13_resplit_inverse :
+  forall (chain : list bytes) (max1 max2 : N) (parts1 parts2 : list bytes) (xs : list read_entry),
+  strict_parts chain = SOk xs -> split_cmd max1 chain = Ok parts1 -> split_cmd max2 parts1 = Ok parts2 ->
+  exists (cs cs2 : list chunk) (b : bytes) (xs2 : list read_entry),
+    bodies 0 chain = SOk cs /\
+    bodies 0 parts2 = SOk cs2 /\ crefines cs cs2 /\
+    concat_cmd [parts2] = Ok b /\ b = write_header 0 ++ ser_chunks cs2 ++ finalize /\
+    strict_parts parts2 = SOk xs2 /\ strict_parts [b] = SOk xs2 /\ Forall2 entry_same xs xs2.
+Print Assumptions C13_resplit_inverse.
+
 Theorem C13_concat_split_inverse_example :
-  split_cmd 120 ex_a = Ok ex_parts /\ length ex_parts = 12%nat /\
+  split_cmd 120 [ex_a] = Ok ex_parts /\ length ex_parts = 12%nat /\
   forallb (fun p => Nat.leb (length p) 120) ex_parts = true /\
   concat_cmd [ex_parts] = Ok ex_b /\ wf_archive ex_b = true /\ length ex_b = (length ex_a + 72)%nat /\
   concat_cmd [[ex_a]] = Ok ex_a.
 Proof. exact concat_split_inverse_ex. Qed.
 Check C13_concat_split_inverse_example :
-  split_cmd 120 ex_a = Ok ex_parts /\ length ex_parts = 12%nat /\
+  split_cmd 120 [ex_a] = Ok ex_parts /\ length ex_parts = 12%nat /\
   forallb (fun p => Nat.leb (length p) 120) ex_parts = true /\
   concat_cmd [ex_parts] = Ok ex_b /\ wf_archive ex_b = true /\ length ex_b = (length ex_a + 72)%nat /\
   concat_cmd [[ex_a]] = Ok ex_a.
 Print Assumptions C13_concat_split_inverse_example.
+
+(* the premises of C13_resplit_inverse are satisfiable: the 12 parts of ex_a split again at 200 bytes *)
+Theorem C13_resplit_example :
+  wf_parts ex_parts = true /\
+  split_cmd 200 ex_parts = Ok ex_parts2 /\ (1 < length ex_parts2 < 12)%nat /\ forallb (fun p => Nat.leb (length p) 200) ex_parts2 = true /\
+  wf_parts ex_parts2 = true /\ concat_cmd [ex_parts2] = Ok ex_b2 /\ wf_archive ex_b2 = true /\
+  (exists xs xs', strict_decode ex_a = Ok xs /\ strict_decode ex_b2 = Ok xs' /\ length xs = 3%nat /\ Forall2 entry_same xs xs') /\
+  (exists p, split_cmd_orig 200 (nth 0 ex_parts []) = Ok [p] /\ read_parts rds [p] = Ok ([], FinOk)).
+Proof. exact resplit_ex. Qed.
+Check C13_resplit_example :
+  wf_parts ex_parts = true /\
+  split_cmd 200 ex_parts = Ok ex_parts2 /\ (1 < length ex_parts2 < 12)%nat /\ forallb (fun p => Nat.leb (length p) 200) ex_parts2 = true /\
+  wf_parts ex_parts2 = true /\ concat_cmd [ex_parts2] = Ok ex_b2 /\ wf_archive ex_b2 = true /\
+  (exists xs xs', strict_decode ex_a = Ok xs /\ strict_decode ex_b2 = Ok xs' /\ length xs = 3%nat /\ Forall2 entry_same xs xs') /\
+  (exists p, split_cmd_orig 200 (nth 0 ex_parts []) = Ok [p] /\ read_parts rds [p] = Ok ([], FinOk)).
+Print Assumptions C13_resplit_example.
+
+(* the command as it was before f4d9f833 (split_cmd_orig: ONE file, successor flag ignored) on part 1 of a two-part chain
+   whose only entry straddles the boundary: exit 0 and an archive with no entry; the repaired command keeps the entry *)
+Theorem C13_split_part1_unrepaired_refuted :
+  read_parts rds sp_chain = Ok ([sp_e], FinOk) /\
+  (exists p, split_cmd_orig 1000 (nth 0 sp_chain []) = Ok [p] /\ read_parts rds [p] = Ok ([], FinOk)) /\
+  (exists p, split_cmd 1000 sp_chain = Ok [p] /\ read_parts rds [p] = Ok ([sp_e], FinOk)).
+Proof. exact split_part1_unrepaired. Qed.
+Check C13_split_part1_unrepaired_refuted :
+  read_parts rds sp_chain = Ok ([sp_e], FinOk) /\
+  (exists p, split_cmd_orig 1000 (nth 0 sp_chain []) = Ok [p] /\ read_parts rds [p] = Ok ([], FinOk)) /\
+  (exists p, split_cmd 1000 sp_chain = Ok [p] /\ read_parts rds [p] = Ok ([sp_e], FinOk)).
+Print Assumptions C13_split_part1_unrepaired_refuted.
+
+(* the chain walk of split: a missing successor NotFound, a wrongly numbered one (the chain entered at part 2, whose
+   successor by name is part 2 itself; a part skipped) InvalidData, no file NotFound, a size below the minimum InvalidInput
+   before anything is read behind the header; the last part alone: its (headless) chunks are copied *)
+Theorem C13_split_chain_errors_example :
+  split_cmd 1000 [nth 0 sp_chain []] = Err NotFound /\
+  split_cmd 1000 [nth 0 sp_chain []; nth 0 sp_chain []] = Err InvalidData /\
+  split_cmd 1000 [] = Err NotFound /\
+  split_cmd 10 [nth 0 sp_chain []] = Err InvalidInput /\
+  (exists p, split_cmd 1000 [nth 1 sp_chain []; nth 1 sp_chain []] = Ok [p] /\ read_parts rds [p] = Ok ([sp_b1], FinOk)) /\
+  split_cmd 1000 [nth 0 exp_chain []; nth 2 exp_chain []] = Err InvalidData /\
+  split_cmd 1000 [nth 1 exp_chain []; nth 1 exp_chain []; nth 2 exp_chain []] = Err InvalidData.
+Proof. exact split_chain_errors_ex. Qed.
+Check C13_split_chain_errors_example :
+  split_cmd 1000 [nth 0 sp_chain []] = Err NotFound /\
+  split_cmd 1000 [nth 0 sp_chain []; nth 0 sp_chain []] = Err InvalidData /\
+  split_cmd 1000 [] = Err NotFound /\
+  split_cmd 10 [nth 0 sp_chain []] = Err InvalidInput /\
+  (exists p, split_cmd 1000 [nth 1 sp_chain []; nth 1 sp_chain []] = Ok [p] /\ read_parts rds [p] = Ok ([sp_b1], FinOk)) /\
+  split_cmd 1000 [nth 0 exp_chain []; nth 2 exp_chain []] = Err InvalidData /\
+  split_cmd 1000 [nth 1 exp_chain []; nth 1 exp_chain []; nth 2 exp_chain []] = Err InvalidData.
+Print Assumptions C13_split_chain_errors_example.
 
 Theorem C13_concat_flatten :
   forall (pre xs post : list (list bytes)) (a : bytes), concat_cmd xs = Ok a ->
